@@ -11,5 +11,7 @@ import (
 func main() {
 	report.Main(map[string]*report.Check{
 		"C09": c09(),
+		"C12": c12(),
+		"C13": c13(),
 	})
 }
